@@ -17,6 +17,35 @@ from .. import loader
 from ..framework import Prop
 
 
+def verif_fn(*args, **kwargs):
+    return len(args) + len(kwargs)
+
+
+def tree_sources(t):
+    """jobs whose resources occur in an argument tree (values of dicts, elements of lists/tuples, at any depth)"""
+    k = t[0]
+    if k == 'r':
+        return [t[1]]
+    if k in ('l', 't'):
+        return [x for e in t[1] for x in tree_sources(e)]
+    if k == 'd':
+        return [x for _key, e in t[1] for x in tree_sources(e)]
+    return []
+
+
+def tree_tokens(t):
+    k = t[0]
+    if k == 'r':
+        return ['R', t[1]]
+    if k == 'i':
+        return ['N']
+    if k in ('l', 't'):
+        return ['L', len(t[1])] + [x for e in t[1] for x in tree_tokens(e)]
+    if k == 'd':
+        return ['D', len(t[1])] + [x for _key, e in t[1] for x in tree_tokens(e)]
+    return ['V']
+
+
 class C17(Prop):
     id = 'C17'
     title = 'Batch jobs run in dependency order with failure propagation'
@@ -31,19 +60,26 @@ class C17(Prop):
                   'never accepted (cyclic_rejected); every acyclic pipeline whose dependencies are jobs of the batch is accepted (dag_accepted, '
                   'accepted_iff_acyclic); the local backend executes the accepted order minus the skipped jobs, each once (executed_once_in_order); '
                   'the skipped set satisfies skip j <-> not always_run j and some dependency failed or was skipped, and is contained in every set '
-                  'closed under that rule (skip_set_is_lfp); the run raises iff an executed job failed (raises_iff).')
+                  'closed under that rule (skip_set_is_lfp); the run raises iff an executed job failed (raises_iff). Dependency construction: one '
+                  'PythonJob.call depends on exactly the other jobs whose resources occur in a positional argument or a keyword-argument value at '
+                  'any nesting depth (call_argument_dependencies); such a consumer is numbered after its producer (consumer_after_producer) and '
+                  'skipped when the producer failed or was skipped (consumer_skipped_when_producer_fails).')
     level_note = ('All theorems are closed (no _partial). Partial only in the tie: the model is connected to batch.py/backend.py by the correspondence '
-                  'cases (<= 9 jobs); how depends_on/_interpolate_command build the dependency sets is checked by the oracle on the real objects, not '
-                  'modelled; shell/Docker execution is replaced by a scripted pass/fail oracle.')
-    budget = {'quick': 1500, 'thorough': 40000}
-    search_budget = {'quick': 4000, 'thorough': 60000}
-    rule = ('case = (n <= 9 jobs created in the order 0..n-1 of a randomly relabelled graph, explicit depends_on edges, resource-induced '
-            'edges (consumer command mentions a producer\'s output file), always_run flags, per-job pass/fail script). Graphs: random DAGs '
+                  'cases (<= 9 jobs); the dependency sets built by depends_on/_interpolate_command/PythonJob.call are modelled by jobDeps (compared '
+                  'with the real _dependencies of every job on every case) with resources abstracted to their source job; shell/Docker execution is '
+                  'replaced by a scripted pass/fail oracle; dill is an inert stub (argument serialisation is not exercised).')
+    budget = {'quick': 1500, 'thorough': 25000}
+    search_budget = {'quick': 3000, 'thorough': 30000}
+    rule = ('case = (n <= 9 bash and python jobs created in the order 0..n-1 of a randomly relabelled graph, explicit depends_on edges, '
+            'resource-induced edges: a bash consumer mentions the producer\'s file / resource-group member / PythonResult.as_str() in its command, '
+            'a python consumer receives the producer\'s JobResourceFile, ResourceGroup, PythonResult, as_str/as_json file through '
+            'PythonJob.call as a positional OR keyword argument, bare or nested in lists/tuples/dict values; noise arguments: plain values, '
+            'input files, the job\'s own results; always_run flags, per-job pass/fail script). Graphs: random DAGs '
             '(edges low->high under a random permutation, so creation order is unrelated to dependency order), DAGs plus injected back/self '
             'edges (cycles), chains, diamonds, fan-in/out. Non-trivial = accepted pipeline with >= 1 failing job that has descendants, or a '
             'rejected cyclic one; distinct by case content')
     trusted = ['harness/props/c17.py fake `subprocess` namespace installed in hailtop.batch.backend (check_call scripted by job name, run = no-op)',
-               'orjson shim (json) on the LocalBackend path']
+               'orjson shim (json) on the LocalBackend path; dill inert stub (PythonJob argument/function pickling writes nothing meaningful)']
     assumptions = ['a job "fails" iff its shell command exits non-zero (CalledProcessError); Docker/shell execution itself is not modelled',
                    'every dependency is a job of the same batch',
                    'the iteration order of the Python set j._dependencies is arbitrary: theorems hold for every order; the model driver is given '
@@ -118,30 +154,67 @@ class C17(Prop):
                 for b in range(a):
                     if rng.random() < p:
                         edges.add((a, b))
+        kinds = ['p' if rng.random() < 0.35 else 'b' for _ in range(n)]
         explicit, resource = [], []
-        for (a, b) in sorted(edges):
-            e = [perm[a], perm[b]]
-            r = rng.random()
-            if r < 0.45:
-                explicit.append(e)
-            elif r < 0.9:
-                resource.append(e)
-            else:
-                explicit.append(e)
-                resource.append(e)
-        # cycles: back edges / self edges, explicit or through resources
+        callres = {}                # python consumer -> [producer, ...] passed through call arguments
+        all_edges = [[perm[a], perm[b]] for (a, b) in sorted(edges)]
+        # cycles: back edges / self edges
         if rng.random() < 0.3:
             for _ in range(rng.choice([1, 1, 2])):
                 a, b = rng.randrange(n), rng.randrange(n)
                 if a > b:
                     a, b = b, a
-                e = [perm[a], perm[b]]      # earlier node depends on a later (or the same) one
-                (explicit if rng.random() < 0.6 else resource).append(e)
-        resource = [e for e in resource if e[0] != e[1]]   # a job reading its own output file creates no dependency
+                all_edges.append([perm[a], perm[b]])      # earlier node depends on a later (or the same) one
+        for e in all_edges:
+            r = rng.random()
+            if e[0] == e[1]:
+                explicit.append(e)      # only depends_on can make a job depend on itself
+            elif r < 0.35:
+                explicit.append(e)
+            elif kinds[e[0]] == 'b':
+                resource.append(e)
+                if r > 0.92:
+                    explicit.append(e)
+            else:
+                callres.setdefault(e[0], []).append(e[1])
+
+        def wrap(t, depth):
+            if depth <= 0 or rng.random() < 0.45:
+                return t
+            k = rng.choice(['l', 't', 'd'])
+            noise = [['v', rng.randrange(5)] for _ in range(rng.randrange(2))]
+            items = noise + [wrap(t, depth - 1)]
+            rng.shuffle(items)
+            if k == 'd':
+                return ['d', [[f'k{i}', e] for i, e in enumerate(items)]]
+            return [k, items]
+
+        calls = []
+        for j in range(n):
+            if kinds[j] != 'p':
+                continue
+            prods = callres.get(j, [])
+            ncalls = 1 if len(prods) <= 1 else rng.choice([1, 2])
+            cs = [{'j': j, 'args': [], 'kwargs': []} for _ in range(ncalls)]
+            for p in prods:
+                c = rng.choice(cs)
+                t = wrap(['r', p, rng.randrange(3)], 2)
+                if rng.random() < 0.5:
+                    c['args'].append(t)
+                else:
+                    c['kwargs'].append([f'kw{len(c["kwargs"])}', t])
+            for c in cs:   # noise: values, an input file, the job's own first result
+                for _ in range(rng.randrange(3)):
+                    t = rng.choice([['v', rng.randrange(9)], ['i'], ['r', j, 0], ['l', []], ['d', []]])
+                    if rng.random() < 0.5:
+                        c['args'].insert(rng.randrange(len(c['args']) + 1), t)
+                    else:
+                        c['kwargs'].append([f'kw{len(c["kwargs"])}', t])
+            calls += [c for c in cs if c['args'] or c['kwargs'] or rng.random() < 0.3]
         ar = [1 if rng.random() < 0.2 else 0 for _ in range(n)]
         pf = rng.random()
         fails = [1 if rng.random() < (0.0 if pf < 0.2 else 0.25 if pf < 0.8 else 0.6) else 0 for _ in range(n)]
-        return {'n': n, 'explicit': explicit, 'resource': resource, 'always_run': ar, 'fails': fails}
+        return {'n': n, 'kinds': kinds, 'explicit': explicit, 'resource': resource, 'calls': calls, 'always_run': ar, 'fails': fails}
 
     def cases(self, rng, n, tier):
         for _ in range(n):
@@ -160,16 +233,50 @@ class C17(Prop):
             with warnings.catch_warnings():
                 warnings.simplefilter('ignore')
                 backend = hb.LocalBackend(tmp_dir=tmp)
-                b = hb.Batch(backend=backend, name='c17')
-                jobs = [b.new_job(name=f'J{i}') for i in range(n)]
+                b = hb.Batch(backend=backend, name='c17', default_python_image='verif/python-dill')
+                kinds = c.get('kinds') or ['b'] * n
+                jobs = [(b.new_python_job(name=f'J{i}') if kinds[i] == 'p' else b.new_job(name=f'J{i}')) for i in range(n)]
+                inp = b.read_input('/etc/hostname')
                 for i, j in enumerate(jobs):
                     if c['always_run'][i]:
                         j.always_run()
-                # every job declares its output file first, so that any other job may consume it
+                # every job declares its outputs first, so that any other job may consume them
+                first_result = {}
                 for i, j in enumerate(jobs):
-                    j.command(f'echo {i} > {j.ofile}')
-                for (a, p) in c['resource']:
-                    jobs[a].command(f'cat {jobs[p].ofile}')
+                    if kinds[i] == 'p':
+                        first_result[i] = j.call(verif_fn, i)
+                    else:
+                        j.declare_resource_group(grp={'a': '{root}.a', 'b': '{root}.b'})
+                        j.command(f'echo {i} > {j.ofile}; touch {j.grp.a} {j.grp.b}')
+
+                def res_of(pj, flavour, for_bash):
+                    if kinds[pj] == 'p':
+                        r = first_result[pj]
+                        if for_bash:
+                            return r.as_str() if flavour % 2 == 0 else r.as_json()
+                        return [r, r.as_str(), r.as_json()][flavour % 3]
+                    pjob = jobs[pj]
+                    if for_bash:
+                        return pjob.ofile if flavour % 2 == 0 else pjob.grp.a
+                    return [pjob.ofile, pjob.grp, pjob.grp.b][flavour % 3]
+
+                def build(t):
+                    k = t[0]
+                    if k == 'r':
+                        return res_of(t[1], t[2], False)
+                    if k == 'i':
+                        return inp
+                    if k == 'l':
+                        return [build(e) for e in t[1]]
+                    if k == 't':
+                        return tuple(build(e) for e in t[1])
+                    if k == 'd':
+                        return {key: build(e) for key, e in t[1]}
+                    return t[1]
+                for k, (a, p) in enumerate(c['resource']):
+                    jobs[a].command(f'cat {res_of(p, k, True)}')
+                for call in c.get('calls', []):
+                    jobs[call['j']].call(verif_fn, *[build(t) for t in call['args']], **{key: build(t) for key, t in call['kwargs']})
                 for (a, p) in c['explicit']:
                     jobs[a].depends_on(jobs[p])
                 idx = {id(j): i for i, j in enumerate(jobs)}
@@ -205,30 +312,56 @@ class C17(Prop):
         self.cache[key] = res
         return res
 
+    @staticmethod
+    def _decl(c, j):
+        ex = [p for a, p in c['explicit'] if a == j]
+        cs = [p for a, p in c['resource'] if a == j]
+        args = [t for call in c.get('calls', []) if call['j'] == j for t in call['args']]
+        kws = [t for call in c.get('calls', []) if call['j'] == j for _k, t in call['kwargs']]
+        return ex, cs, args, kws
+
     def model_lines(self, c):
         r = self._eval(c)
+        lines = []
+        for j in range(c['n']):
+            ex, cs, args, kws = self._decl(c, j)
+            toks = ['deps', j, 'E', len(ex)] + ex + ['C', len(cs)] + cs + ['A', len(args)] + [x for t in args for x in tree_tokens(t)] \
+                + ['K', len(kws)] + [x for t in kws for x in tree_tokens(t)]
+            lines.append(' '.join(map(str, toks)))
         toks = [c['n']] + c['always_run'] + c['fails']
         for ds in r['deps']:
             toks += [len(ds)] + ds
-        return [' '.join(map(str, toks))]
+        return lines + [' '.join(map(str, toks))]
 
     def impl(self, c):
         r = self._eval(c)
+        if 'error' in r:
+            return [r['error']] * (c['n'] + 1)
+        head = [','.join(map(str, sorted(ds))) for ds in r['deps']]
         if r['exc'] and r['exc'][0] == 'batch':
-            return ['cycle' if 'cycle detected' in r['exc'][1] else 'batchexception ' + r['exc'][1][:60]]
+            return head + ['cycle' if 'cycle detected' in r['exc'][1] else 'batchexception ' + r['exc'][1][:60]]
         if r['exc'] and r['exc'][0] in ('assert', 'keyerror'):
-            return [r['exc'][0]]
+            return head + [r['exc'][0]]
         ex = [int(name[1:]) for name, _ in r['calls'] if name]
         sk = [j for j in r['order'] if j not in ex]
         s = lambda l: ','.join(map(str, l))
-        return [f'order={s(r["order"])} exec={s(ex)} skip={s(sk)} exc={1 if r["exc"] else 0}']
+        return head + [f'order={s(r["order"])} exec={s(ex)} skip={s(sk)} exc={1 if r["exc"] else 0}']
 
     # ------------------------------------------------------------------------------------------
     @staticmethod
     def _deps(c):
         deps = {i: set() for i in range(c['n'])}
-        for a, p in c['explicit'] + c['resource']:
+        for a, p in c['explicit']:
             deps[a].add(p)
+        for a, p in c['resource']:
+            if p != a:
+                deps[a].add(p)
+        # every resource handed to PythonJob.call, positionally or by keyword, bare or nested, makes its producer a dependency
+        for call in c.get('calls', []):
+            for t in call['args'] + [t for _k, t in call['kwargs']]:
+                for p in tree_sources(t):
+                    if p != call['j']:
+                        deps[call['j']].add(p)
         return deps
 
     @staticmethod
@@ -253,13 +386,23 @@ class C17(Prop):
         # the dependency sets the DSL built are the declared edges (explicit + through consumed resources)
         for i in range(n):
             if set(r['deps'][i]) != deps[i]:
-                return f'job {i}: dependencies recorded {sorted(r["deps"][i])}, declared {sorted(deps[i])}'
+                miss = sorted(deps[i] - set(r['deps'][i]))
+                how = ''
+                for call in c.get('calls', []):
+                    if call['j'] == i:
+                        for key, t in call['kwargs']:
+                            if set(tree_sources(t)) & set(miss):
+                                how = f' (resource of job {sorted(set(tree_sources(t)) & set(miss))} passed to call() as keyword argument {key!r})'
+                        for t in call['args']:
+                            if set(tree_sources(t)) & set(miss) and not how:
+                                how = ' (passed to call() positionally)'
+                return f'job {i} consumes resources of {sorted(deps[i])} but its dependencies are {sorted(r["deps"][i])}: missing {miss}{how}'
         executed = [name for name, _ in r['calls']]
         if None in executed:
             return 'a shell block that belongs to no job was executed'
         if self._cyclic(deps):
             if not (r['exc'] and r['exc'][0] == 'batch' and 'cycle detected' in r['exc'][1]):
-                return f'cyclic pipeline was not rejected: {out[0]}'
+                return f'cyclic pipeline was not rejected: {out[-1]}'
             if executed:
                 return f'cyclic pipeline: {executed} ran before the rejection'
             return None
@@ -301,11 +444,20 @@ class C17(Prop):
         return None
 
     def classify(self, c, out):
-        o = out[0]
+        o = out[-1]
         deps = self._deps(c)
         ne = sum(len(v) for v in deps.values())
         tags = [f'n={c["n"]}', 'edges=' + ('0' if ne == 0 else '1-3' if ne <= 3 else '4-8' if ne <= 8 else '9+'),
                 'resource-edges' if c['resource'] else 'no-resource-edges']
+        calls = c.get('calls', [])
+        if 'p' in (c.get('kinds') or []):
+            tags.append('python jobs')
+        if any(p != call['j'] for call in calls for _k, t in call['kwargs'] for p in tree_sources(t)):
+            tags.append('resource in a keyword argument of call()')
+        if any(p != call['j'] for call in calls for t in call['args'] for p in tree_sources(t)):
+            tags.append('resource in a positional argument of call()')
+        if any(t[0] in 'ltd' and tree_sources(t) for call in calls for t in call['args'] + [t for _k, t in call['kwargs']]):
+            tags.append('resource nested in list/tuple/dict')
         if o == 'cycle':
             tags.append('rejected cycle' + (' (self)' if any(a == p for a, p in c['explicit']) else ''))
             return (json.dumps(c, sort_keys=True), tags)
@@ -334,6 +486,13 @@ class C17(Prop):
             for fld in ('explicit', 'resource'):
                 for i in range(len(cur[fld])):
                     cands.append({**cur, fld: cur[fld][:i] + cur[fld][i + 1:]})
+            for i in range(len(cur.get('calls', []))):
+                cands.append({**cur, 'calls': cur['calls'][:i] + cur['calls'][i + 1:]})
+                call = cur['calls'][i]
+                for fld in ('args', 'kwargs'):
+                    for k in range(len(call[fld])):
+                        nc = {**call, fld: call[fld][:k] + call[fld][k + 1:]}
+                        cands.append({**cur, 'calls': cur['calls'][:i] + [nc] + cur['calls'][i + 1:]})
             for i in range(cur['n']):
                 if cur['fails'][i]:
                     cands.append({**cur, 'fails': cur['fails'][:i] + [0] + cur['fails'][i + 1:]})
@@ -341,8 +500,11 @@ class C17(Prop):
                     cands.append({**cur, 'always_run': cur['always_run'][:i] + [0] + cur['always_run'][i + 1:]})
             # drop the last job if nothing mentions it
             m = cur['n'] - 1
-            if m >= 1 and all(m not in e for e in cur['explicit'] + cur['resource']):
-                cands.append({**cur, 'n': m, 'fails': cur['fails'][:m], 'always_run': cur['always_run'][:m]})
+            used = [x for e in cur['explicit'] + cur['resource'] for x in e] + [call['j'] for call in cur.get('calls', [])] + \
+                [p for call in cur.get('calls', []) for t in call['args'] + [t for _k, t in call['kwargs']] for p in tree_sources(t)]
+            if m >= 1 and m not in used:
+                cands.append({**cur, 'n': m, 'fails': cur['fails'][:m], 'always_run': cur['always_run'][:m],
+                              'kinds': (cur.get('kinds') or ['b'] * cur['n'])[:m]})
             for cand in cands:
                 if fails(cand):
                     cur = cand
